@@ -4,7 +4,12 @@ from concurrent.futures import ThreadPoolExecutor
 V = os.path.dirname(os.path.dirname(os.path.abspath(__file__)))
 COQ = os.path.join(V, "coq")
 HARNESS = os.path.join(V, "harness")
-REPO = "/repo"
+REPO = os.environ.get("VERIF_REPO", "/repo")   # VERIF_REPO: run against a scratch worktree (seeded-change experiments only)
+ALT = REPO != "/repo"
+if ALT:
+    _h = hashlib.sha256(REPO.encode()).hexdigest()[:8]
+    HARNESS = os.path.join(V, "work", "harness-" + _h)
+    COQ = os.path.join(V, "work", "coq-" + _h)   # private copy: regenerated tables differ per tree
 
 GOENV = dict(GOFLAGS="-mod=mod", GOPROXY="off", GOSUMDB="off", GOTOOLCHAIN="local")
 
@@ -42,8 +47,11 @@ def sh(cmd, cwd=None, env=None, timeout=None, capture=True):
 
 
 def load_conf():
-    with open(os.path.join(V, "conf.json")) as f:
-        return json.load(f)
+    out = {}
+    for p in sorted(glob.glob(os.path.join(V, "conf", "C*.json"))):
+        with open(p) as f:
+            out[os.path.basename(p)[:-5]] = json.load(f)
+    return out
 
 
 def go_bin():
@@ -197,12 +205,14 @@ def grep_audit():
 # ------------------------------------------------------------------ harness + evaluation
 
 def run_harness(prop, conf, tier, seed, outdir, replay_ids=None):
-    sh([os.path.join(V, "lib", "gomod.sh")])
-    env = dict(GOENV, VERIF_SEED=str(seed), VERIF_TIER=tier, VERIF_OUT=outdir)
+    if ALT:
+        sh(["rsync", "-a", "--delete", "--exclude", "go.mod", "--exclude", "go.sum", os.path.join(V, "harness") + "/", HARNESS + "/"])
+    sh([os.path.join(V, "lib", "gomod.sh"), REPO, HARNESS])
+    env = dict(GOENV, VERIF_SEED=str(seed), VERIF_TIER=tier, VERIF_OUT=outdir, VERIF_REPO=REPO)
     if replay_ids:
         env["VERIF_REPLAY_IDS"] = ",".join(str(i) for i in replay_ids)
     pkg = conf.get("go_pkg", "./" + prop.lower())
-    cmd = [go_bin(), "test", "-tags", "verif", "-count=1", "-timeout", conf.get("go_timeout", "30m")]
+    cmd = [go_bin(), "test", "-trimpath", "-tags", "verif", "-count=1", "-timeout", conf.get("go_timeout", "30m")]
     if tier == "thorough" and conf.get("race"):
         cmd.append("-race")
         env["CGO_ENABLED"] = "1"
@@ -290,7 +300,7 @@ def main(argv):
         return 2
     conf = confs[prop]
     t0 = time.time()
-    outdir = os.path.join(V, "work", prop)
+    outdir = os.path.join(V, "work", prop + ("-alt-" + hashlib.sha256(REPO.encode()).hexdigest()[:8] if ALT else ""))
     shutil.rmtree(outdir, ignore_errors=True)
     os.makedirs(outdir, exist_ok=True)
     replay_ids = None
@@ -301,6 +311,9 @@ def main(argv):
         replay_ids = rp.get("case_ids") or None
         log("replaying", a.replay, "seed", seed, "tier", tier, "ids", replay_ids)
 
+    if ALT:
+        with Lock("coq.lock"):
+            sh(["rsync", "-a", "--delete", os.path.join(V, "coq") + "/", COQ + "/"])
     violations = []   # dicts: kind, detail, case_ids, failing(bool)
     framework_errors = []
 
@@ -427,7 +440,10 @@ def main(argv):
     )
     if discharged == 0:
         ev["coverage"]["discharged"] = 0
-    if not a.replay:
+    if ALT:
+        with open(os.path.join(outdir, "evidence.json"), "w") as f:
+            json.dump(ev, f, indent=1, default=str)
+    elif not a.replay:
         os.makedirs(os.path.join(V, "evidence"), exist_ok=True)
         with open(os.path.join(V, "evidence", prop + ".json"), "w") as f:
             json.dump(ev, f, indent=1, default=str)
